@@ -12,28 +12,47 @@ instantiates every shape as a real type and observes the name each route actuall
 namespace Ebu.Props.C15
 open Ebu.TypeName
 
-/-- every API route uses the name `EventType` reports, for every shape -/
-theorem names_agree (r : Route) (s : Shape) : routeName r s = eventType s := by
-  cases r <;> simp [routeName, typeNameOf, eventType]
+/-- the persisted name is the one `EventType` reports for the published event – for EVERY shape, also when
+`EventTypeName` computes the name from the event's fields – and a replay (with or without upcasters) leaves it so -/
+theorem persisted_is_eventType (s : Shape) :
+    routeName .persisted s = eventType s ∧ routeName .storedAfterReplay s = eventType s ∧
+    routeName .eventTypeFn s = eventType s := by
+  simp [routeName]
+
+/-- every API route uses the name `EventType` reports, for every shape whose name does not depend on the
+event's value (the routes that select by Go type have no value to ask: they use the zero value's name) -/
+theorem names_agree (r : Route) (s : Shape) (hc : s.constName = true) : routeName r s = eventType s := by
+  have : s.custom = s.customZero := by simpa [Shape.constName] using hc
+  cases r <;> simp [routeName, typeNameOf, eventType, this]
+
+/-- the hypothesis of `names_agree` is exactly what is needed: for a shape whose name depends on the value
+and whose method is in the method set, the typed routes use another name than the persisted one -/
+theorem names_agree_needs_constName (s : Shape) (hm : inMethodSet s = true) (hc : s.constName = false) :
+    routeName .replaySub s ≠ routeName .persisted s := by
+  have : s.custom ≠ s.customZero := by simpa [Shape.constName] using hc
+  simp [routeName, typeNameOf, eventType, hm]; exact fun h => this h.symm
 
 /-- consequently a persisted event is matched by its typed replay subscription and by typed
 upcast registrations for it -/
-theorem persisted_matched (s : Shape) :
+theorem persisted_matched (s : Shape) (hc : s.constName = true) :
     routeName .persisted s = routeName .replaySub s ∧ routeName .persisted s = routeName .upcastFrom s ∧
     routeName .persisted s = routeName .upcastTo s := by
-  simp [names_agree]
+  simp [names_agree _ s hc]
 
 /-- the method-set rule, spelled out: the custom name is used exactly for value-receiver
 namers (value or pointer events) and for pointer-receiver namers on pointer events -/
 theorem custom_name_iff (s : Shape) (hne : s.custom ≠ reflectName s) :
     eventType s = s.custom ↔ (s.recv = .value ∨ (s.recv = .pointer ∧ s.ptr = true)) := by
-  obtain ⟨ptr, recv, base, custom⟩ := s
+  obtain ⟨ptr, recv, base, custom, customZero⟩ := s
   cases recv <;> cases ptr <;> simp_all [eventType, inMethodSet, reflectName] <;> exact fun h => hne h.symm
 
-/-- non-vacuity: the instantiated shapes include both outcomes -/
+/-- non-vacuity: the instantiated shapes include both outcomes, constant and value-dependent names -/
 example : (shapes.map eventType) =
     ["main.NPlain", "*main.NPlain", "nval.v1", "nval.v1", "main.NPtr", "nptr.v1",
-     "state.ChangeMessage", "state.ChangeMessage", "state.ControlMessage", "state.ControlMessage"] := by
+     "state.ChangeMessage", "state.ChangeMessage", "state.ControlMessage", "state.ControlMessage",
+     "ndyn.v7", "ndyn.v7", "main.NDynP", "ndynp.v7"] := by
   decide
+example : (shapes.map Shape.constName) =
+    [true, true, true, true, true, true, true, true, true, true, false, false, false, false] := by decide
 
 end Ebu.Props.C15
